@@ -250,7 +250,7 @@ func c08One(s *Svc, m *spec.Method, v any, view string, tamper string, doTamper 
 	}
 	if d := keyDiff(want, body, "body"); d != "" {
 		kind := "missing"
-		if strings.Contains(d, "extra") {
+		if strings.Contains(d, ": extra key ") {
 			kind = "leak"
 		}
 		fail(fmt.Sprintf("C08 wire-keys %s kind=%s", feat, kind), fmt.Sprintf("view %q of %s: %s (body %s)", view, spec.Canon(v), d, truncate(call.Rec.Body.String(), 300)))
